@@ -1,12 +1,12 @@
 """C01 — ICE converges: both agents READY on mirrored selected pairs, one controller."""
-import vlib, sim_common as sc
+import vlib, tabgen, sim_common as sc
 
 COQ_TARGETS = ["Props/Properties_C01.vo"]
 META = dict(
     text="proof (partial): Coq theorems over a transition-system model of ICE role-conflict resolution (tie-breaker comparison of "
          "conncheck_create_reply, 487 handling): for ANY pool of in-flight honest messages delivered in any order, any number of times, stale "
          "ones included, every role change moves the larger tie-breaker towards controlling / the smaller towards controlled; complementary "
-         "roles are stable; one completed conflict exchange leaves exactly one controller. The decision function is tied to the real "
+         "roles are stable; one completed conflict exchange leaves exactly one controller; the selected pair only moves to strictly higher priority, ends as the best nominated pair and, with distinct priorities, independently of the order nominations arrived in (statement shape of conn_check_update_selected_pair checked in the source on every run). The decision function is tied to the real "
          "stun_usage_ice_conncheck_create_reply by exhaustive-boundary differential execution (evaluated inside Coq). Convergence to READY on "
          "mirrored pairs for every fair schedule is NOT proved: real agents are run in the deterministic simulator (virtual clock/UDP) over "
          "nomination mode x initial roles x tie-breakers x 1..3 addresses x 1..2 components x signalling orders x drop/dup/delay schedules with the "
@@ -80,7 +80,14 @@ def oracle(line, evs, meta):
     return sc.oracle_convergence(evs, meta.get("ncomp", 1)) or sc.oracle_states(evs, None) or sc.oracle_checklist_sorted(evs) or sc.oracle_data(evs)
 
 
+def pregen():
+    return tabgen.select_shape()
+
+
 def run(chk):
+    gi, err = pregen()
+    if gi is None:
+        chk.broken_obligation("translator/table-extractor", err)
     chk.prove(["Props/Properties_C01.v"])
     role_tie(chk)
     n = 1200 if chk.tier == "quick" else 60000
